@@ -216,11 +216,11 @@ theorem posFull_pos {s : Svc} {items : List Item} (h : posFull s items = true) :
 /-! ### `held` -/
 
 theorem heldEv_dlv {h : Nat} {s : Svc} {x : DlvE} (hx : x.h = h) :
-    heldEv h s ⟨x.t, .dlv x.d x.src x.h x.mc x.items⟩ = (ptrOf s x.items).map (·.1) := by
+    heldEv h s ⟨x.t, .dlv x.d x.src x.h x.mc x.items⟩ = (ptrOf s x.items).map (fun p => (p.1, x.t)) := by
   simp [heldEv, hx]
 
-theorem heldEv_some {h : Nat} {s : Svc} {a : TEv} {ttl : Nat} (ha : heldEv h s a = some ttl) :
-    ∃ x : DlvE, a = ⟨x.t, .dlv x.d x.src x.h x.mc x.items⟩ ∧ x.h = h ∧ ∃ full, ptrOf s x.items = some (ttl, full) := by
+theorem heldEv_some {h : Nat} {s : Svc} {a : TEv} {ttl : Nat} {t0 : Int} (ha : heldEv h s a = some (ttl, t0)) :
+    ∃ x : DlvE, a = ⟨x.t, .dlv x.d x.src x.h x.mc x.items⟩ ∧ x.h = h ∧ x.t = t0 ∧ ∃ full, ptrOf s x.items = some (ttl, full) := by
   obtain ⟨t, e⟩ := a
   cases e <;> try (simp [heldEv] at ha; done)
   rename_i d src h' mc items
@@ -232,9 +232,9 @@ theorem heldEv_some {h : Nat} {s : Svc} {a : TEv} {ttl : Nat} (ha : heldEv h s a
     | some v =>
       obtain ⟨ttl', full⟩ := v
       rw [hp] at ha
-      simp only [Option.map_some, Option.some.injEq] at ha
-      subst ha
-      exact ⟨⟨t, d, src, h', mc, items⟩, rfl, hh, full, hp⟩
+      simp only [Option.map_some, Option.some.injEq, Prod.mk.injEq] at ha
+      obtain ⟨rfl, rfl⟩ := ha
+      exact ⟨⟨t, d, src, h', mc, items⟩, rfl, hh, rfl, full, hp⟩
   · rw [if_neg hh] at ha; cases ha
 
 theorem pos_iff {s : Svc} {items : List Item} : pos s items = true ↔ ∃ ttl full, ptrOf s items = some (ttl, full) ∧ 0 < ttl := by
@@ -254,15 +254,16 @@ theorem held_true {tr : Trace} {h : Nat} {s : Svc} (hs : Sorted tr) {e : DlvE} (
     (hpos : pos s e.items = true)
     (hbye : ∀ g ∈ dlvs tr, g.h = h → bye s g.items = true → g.t < e.t) : held tr h s = true := by
   obtain ⟨ttl, full, hp, httl⟩ := pos_iff.mp hpos
-  have hev : heldEv h s ⟨e.t, .dlv e.d e.src e.h e.mc e.items⟩ = some ttl := by rw [heldEv_dlv heh, hp]; rfl
+  have hev : heldEv h s ⟨e.t, .dlv e.d e.src e.h e.mc e.items⟩ = some (ttl, e.t) := by rw [heldEv_dlv heh, hp]; rfl
   unfold held
   cases hl : lastSome (heldEv h s) tr with
   | none =>
     have := (lastSome_eq_none _ _).mp hl _ (mem_dlvs.mp he)
     rw [hev] at this; cases this
   | some c =>
-    obtain ⟨a, ha, hac, hmax⟩ := lastSome_sorted _ tr c hs hl
-    obtain ⟨x, rfl, hxh, fx, hpx⟩ := heldEv_some hac
+    obtain ⟨c, ct⟩ := c
+    obtain ⟨a, ha, hac, hmax⟩ := lastSome_sorted _ tr _ hs hl
+    obtain ⟨x, rfl, hxh, _, fx, hpx⟩ := heldEv_some hac
     have h1 := hmax _ (mem_dlvs.mp he) (by rw [hev]; simp)
     simp only [decide_eq_true_eq]
     rcases Nat.eq_zero_or_pos c with rfl | hc
@@ -279,8 +280,9 @@ theorem held_false {tr : Trace} {h : Nat} {s : Svc} (hs : Sorted tr)
   cases hl : lastSome (heldEv h s) tr with
   | none => rfl
   | some c =>
-    obtain ⟨a, ha, hac, hmax⟩ := lastSome_sorted _ tr c hs hl
-    obtain ⟨x, rfl, hxh, fx, hpx⟩ := heldEv_some hac
+    obtain ⟨c, ct⟩ := c
+    obtain ⟨a, ha, hac, hmax⟩ := lastSome_sorted _ tr _ hs hl
+    obtain ⟨x, rfl, hxh, _, fx, hpx⟩ := heldEv_some hac
     simp only [decide_eq_false_iff_not, Nat.not_lt, Nat.le_zero_eq]
     rcases Nat.eq_zero_or_pos c with rfl | hc
     · rfl
@@ -308,44 +310,85 @@ theorem mem_cbSvcs_of {tr : Trace} {b : Br} {s : Svc} {e : TEv} (he : e ∈ tr) 
   subst hx
   exact ⟨x, he, hxs⟩
 
-/-- K5 at the end of the observation: a browser on a host that was never closed reports the held instances of its type -/
-theorem live_eq_held {tr : Trace} {endT : Int} (hle : ∀ e ∈ tr, e.t ≤ endT) (h5 : K5 tr endT = true)
-    {tb : Int} {b : Br} (hb : (tb, b) ∈ browses tr) (hopen : neverClosed tr b.host = true) (s : Svc) :
-    live tr b s = (held tr b.host s && s.ty == b.ty) := by
-  have hk : k5At tr = true := by
-    unfold K5 at h5
-    simp only [List.all_cons, Bool.and_eq_true] at h5
-    have h := h5.1
-    rwa [List.filter_eq_self.mpr (fun a ha => by simpa using hle a ha)] at h
+theorem mem_dedupSvc {l : List Svc} {s : Svc} : s ∈ dedupSvc l ↔ s ∈ l := by
+  induction l with
+  | nil => simp [dedupSvc]
+  | cons a r ih =>
+    simp only [dedupSvc]
+    by_cases hc : r.contains a = true
+    · rw [if_pos hc, ih, List.mem_cons]
+      have ha : a ∈ r := by simpa using hc
+      constructor
+      · exact Or.inr
+      · rintro (rfl | h)
+        · exact ha
+        · exact h
+    · rw [if_neg hc, List.mem_cons, List.mem_cons, ih]
+
+theorem held_mem_dlvSvcs {tr : Trace} {h : Nat} {s : Svc} (hh : held tr h s = true) : s ∈ dlvSvcs tr := by
+  unfold held at hh
+  cases hl : lastSome (heldEv h s) tr with
+  | none => rw [hl] at hh; cases hh
+  | some c =>
+    obtain ⟨c, ct⟩ := c
+    obtain ⟨pre, a, post, rfl, hac, _⟩ := lastSome_eq_some _ _ _ hl
+    obtain ⟨x, rfl, _, _, full, hp⟩ := heldEv_some hac
+    unfold dlvSvcs
+    rw [List.mem_flatMap]
+    exact ⟨x, mem_dlvs.mpr (by simp), ptrOf_mem hp⟩
+
+theorem k5_end {tr : Trace} {endT : Int} (hle : ∀ e ∈ tr, e.t ≤ endT) (h5 : K5 Cfg.paper tr endT = true) :
+    k5At Cfg.paper tr endT = true := by
+  unfold K5 at h5
+  simp only [List.all_cons, Bool.and_eq_true] at h5
+  have h := h5.1
+  rwa [List.filter_eq_self.mpr (fun a ha => by simpa using hle a ha)] at h
+
+/-- K5 at the end of the observation, first half: what the host holds (unexpired) of the browsed type is reported -/
+theorem live_of_heldFresh {tr : Trace} {endT : Int} (hle : ∀ e ∈ tr, e.t ≤ endT) (h5 : K5 Cfg.paper tr endT = true)
+    {tb : Int} {b : Br} (hb : (tb, b) ∈ browses tr) (hopen : neverClosed tr b.host = true) {s : Svc}
+    (hf : heldFresh Cfg.paper tr b.host s endT = true) (hty : s.ty = b.ty) : live tr b s = true := by
+  have hk := k5_end hle h5
   unfold k5At at hk
   rw [List.all_eq_true] at hk
   have h := hk (tb, b) hb
   simp only [hopen, Bool.not_true, Bool.false_or, List.all_eq_true] at h
-  by_cases hs : s ∈ cbSvcs tr ++ dlvSvcs tr
-  · have := h s hs
-    simpa using this
-  · rw [List.mem_append, not_or] at hs
-    have hl : live tr b s = false := by
-      unfold live
-      rw [(lastSome_eq_none _ _).mpr]
-      intro e he
-      cases hv : cbEv b s e with
-      | none => rfl
-      | some v => exact absurd (mem_cbSvcs_of he (by rw [hv]; simp)) hs.1
-    have hh : held tr b.host s = false := by
-      unfold held
-      rw [(lastSome_eq_none _ _).mpr]
-      intro e he
-      cases hv : heldEv b.host s e with
-      | none => rfl
-      | some ttl =>
-        exfalso
-        obtain ⟨x, rfl, _, full, hp⟩ := heldEv_some hv
-        apply hs.2
-        unfold dlvSvcs
-        rw [List.mem_flatMap]
-        exact ⟨x, mem_dlvs.mpr he, ptrOf_mem hp⟩
-    rw [hl, hh]; rfl
+  have hheld : held tr b.host s = true := by
+    unfold heldFresh at hf
+    simp only [Bool.and_eq_true] at hf
+    exact hf.1
+  have := h s (mem_dedupSvc.mpr (List.mem_append.mpr (Or.inr (held_mem_dlvSvcs hheld))))
+  simp only [hf, hty, beq_self_eq_true, Bool.and_true, Bool.not_true, Bool.false_or, Bool.and_eq_true] at this
+  exact this.1
+
+/-- … second half: nothing is reported that the host does not hold, and nothing of another type -/
+theorem not_live_of_not_held {tr : Trace} {endT : Int} (hle : ∀ e ∈ tr, e.t ≤ endT) (h5 : K5 Cfg.paper tr endT = true)
+    {tb : Int} {b : Br} (hb : (tb, b) ∈ browses tr) (hopen : neverClosed tr b.host = true) {s : Svc}
+    (hn : held tr b.host s = false ∨ s.ty ≠ b.ty) : live tr b s = false := by
+  have hk := k5_end hle h5
+  unfold k5At at hk
+  rw [List.all_eq_true] at hk
+  have h := hk (tb, b) hb
+  simp only [hopen, Bool.not_true, Bool.false_or, List.all_eq_true] at h
+  cases hl : live tr b s with
+  | false => rfl
+  | true =>
+    exfalso
+    have hs : s ∈ cbSvcs tr ++ dlvSvcs tr := by
+      rw [List.mem_append]
+      left
+      unfold live at hl
+      cases hc : lastSome (cbEv b s) tr with
+      | none => rw [hc] at hl; cases hl
+      | some v =>
+        obtain ⟨pre, a, post, rfl, hac, _⟩ := lastSome_eq_some _ _ _ hc
+        exact mem_cbSvcs_of (e := a) (by simp) (by rw [hac]; simp)
+    have := h s (mem_dedupSvc.mpr hs)
+    simp only [hl, Bool.not_true, Bool.false_or, Bool.and_eq_true, Bool.or_true, Bool.true_and, heldGrace, beq_iff_eq] at this
+    rcases hn with hn | hn
+    · rw [hn] at this
+      simp at this
+    · exact hn this.2
 
 /-! ### `registered` -/
 
